@@ -116,6 +116,7 @@ type DagSpec struct {
 	File          string                  `json:"file"` // base name without extension
 	Steps         []StepSpec              `json:"steps"`
 	MaxActiveRuns int                     `json:"maxActiveRuns,omitempty"`
+	BaseLimit     bool                    `json:"baseLimit,omitempty"` // maxActiveRuns comes from the installation's base configuration, not from the DAG file
 	DelaySec      int                     `json:"delaySec,omitempty"`
 	TimeoutSec    int                     `json:"timeoutSec,omitempty"`
 	MaxCleanUpSec int                     `json:"maxCleanUpSec,omitempty"` // 0 = default
@@ -200,7 +201,7 @@ func (d *DagSpec) YAML() string {
 			fmt.Fprintf(&b, "  - %s: %s\n", k, yq(v))
 		}
 	}
-	if d.MaxActiveRuns != 0 {
+	if d.MaxActiveRuns != 0 && !d.BaseLimit {
 		fmt.Fprintf(&b, "maxActiveRuns: %d\n", d.MaxActiveRuns)
 	}
 	if d.DelaySec != 0 {
